@@ -84,7 +84,9 @@ impl BodyWriter {
                 let mut input_used = 0;
 
                 if input.is_empty() {
-                    self.ended = self.finish(w);
+                    if !self.ended {
+                        self.ended = self.finish(w);
+                    }
                 } else {
                     // The chunk size might be smaller than the entire input, in which case
                     // we continue to send chunks frome the same input.
